@@ -1,0 +1,123 @@
+//go:build verif
+
+package convert
+
+// Contracts for the gvc verifier (/verif). Comment-only; never compiled into
+// a normal build.
+//
+// Property C31 (line-ending conversion as git's convert.c does it).
+
+// IsBinary is git's convert_is_binary: lone CR, NUL, or too many
+// non-printable bytes.
+//gvc:func (Stat).IsBinary
+//gvc:  props C31
+//gvc:  theory int
+//gvc:  ensures asgit: result == spec_is_binary(s.NUL, s.LoneCR, s.Printable, s.NonPrintable)
+//gvc:end
+
+// GetStat is git's gather_stats over the bytes the reader yields (from its
+// position on entry to its end). Postconditions pin down what decides
+// "binary": a NUL was seen iff the data has one; a lone CR was counted iff
+// some CR is not followed by LF; every counter is bounded by the bytes read.
+// (git also counts a NUL as non-printable, go-git does not: no difference for
+// IsBinary, which is true for any NUL.) Each iteration classifies one byte with git's rules (loop step against
+// spec_stat_*), and the trailing ^Z adjustment never wraps.
+// The reader must keep data and errors apart (bufio.Reader, as every caller
+// passes): a reader that hands out the last byte together with io.EOF would
+// have that byte ignored.
+//gvc:func GetStat
+//gvc:  props C31 C53
+//gvc:  theory int
+//gvc:  modifies r.#pos
+//gvc:  requires nn: r != nil
+//gvc:  requires strict: r.#strict
+//gvc:  requires size: r.#pos <= r.#n && r.#n <= 0x4000000000000000
+//gvc:  let p0 = r.#pos
+//gvc:  loop 1 invariant pos: p0 <= r.#pos && r.#pos <= r.#n && len(buf) == 1
+//gvc:  loop 1 invariant last: (r.#pos > p0 ==> buf[0] == r.#data[r.#pos - 1]) && (r.#pos == p0 ==> buf[0] == 0)
+//gvc:  loop 1 invariant cr: hadCR == (r.#pos > p0 && r.#data[r.#pos - 1] == '\r')
+//gvc:  loop 1 invariant nul: (stat.NUL > 0) == exists(k, p0, r.#pos, r.#data[k] == 0)
+//gvc:  loop 1 invariant lonecr: (stat.LoneCR > 0) == exists(k, p0, r.#pos - 1, r.#data[k] == '\r' && r.#data[k + 1] != '\n')
+//gvc:  loop 1 invariant lf: (stat.LoneLF > 0) == exists(k, p0, r.#pos, r.#data[k] == '\n' && (k == p0 || r.#data[k - 1] != '\r'))
+//gvc:  loop 1 invariant crlf: (stat.CRLF > 0) == exists(k, p0 + 1, r.#pos, r.#data[k] == '\n' && r.#data[k - 1] == '\r')
+//gvc:  loop 1 invariant bound: stat.NUL + stat.LoneCR + stat.LoneLF + stat.CRLF + stat.Printable + stat.NonPrintable + ite(hadCR, 1, 0) <= r.#pos - p0
+//gvc:  loop 1 invariant ctrlz: r.#pos > p0 && r.#data[r.#pos - 1] == 26 ==> stat.NonPrintable >= 1
+//gvc:  loop 1 step one: r.#pos == head(r.#pos) + 1
+//gvc:  loop 1 step printable: stat.Printable == head(stat.Printable) + ite(spec_stat_printable(r.#data[head(r.#pos)]), 1, 0)
+//gvc:  loop 1 step nonprintable: stat.NonPrintable == head(stat.NonPrintable) + ite(spec_stat_nonprintable(r.#data[head(r.#pos)]) && r.#data[head(r.#pos)] != 0, 1, 0)
+//gvc:  loop 1 step nulc: stat.NUL == head(stat.NUL) + ite(r.#data[head(r.#pos)] == 0, 1, 0)
+//gvc:  loop 1 step lfc: stat.LoneLF == head(stat.LoneLF) + ite(r.#data[head(r.#pos)] == '\n' && !head(hadCR), 1, 0)
+//gvc:  loop 1 step crlfc: stat.CRLF == head(stat.CRLF) + ite(r.#data[head(r.#pos)] == '\n' && head(hadCR), 1, 0)
+//gvc:  loop 1 step lonecrc: stat.LoneCR == head(stat.LoneCR) + ite(r.#data[head(r.#pos)] != '\n' && head(hadCR), 1, 0)
+//gvc:  ensures nul: err == nil ==> (stat.NUL > 0) == exists(k, p0, r.#pos, r.#data[k] == 0)
+//gvc:  ensures lonecr: err == nil ==> (stat.LoneCR > 0) == exists(k, p0, r.#pos, r.#data[k] == '\r' && (k + 1 == r.#pos || r.#data[k + 1] != '\n'))
+//gvc:  ensures lf: err == nil ==> (stat.LoneLF > 0) == exists(k, p0, r.#pos, r.#data[k] == '\n' && (k == p0 || r.#data[k - 1] != '\r'))
+//gvc:  ensures crlf: err == nil ==> (stat.CRLF > 0) == exists(k, p0 + 1, r.#pos, r.#data[k] == '\n' && r.#data[k - 1] == '\r')
+//gvc:  ensures bound: err == nil ==> stat.NUL + stat.LoneCR + stat.LoneLF + stat.CRLF + stat.Printable + stat.NonPrintable <= r.#pos - p0
+//gvc:  ensures whole: err == nil ==> r.#pos == r.#n
+//gvc:  ensures failed: err != nil ==> stat.NUL == 0 && stat.LoneCR == 0 && stat.LoneLF == 0 && stat.CRLF == 0 && stat.Printable == 0 && stat.NonPrintable == 0
+//gvc:end
+
+// crlfToLFWriter.Write: every iteration consumes a maximal CRLF-free run of
+// the chunk followed by a CRLF and emits the run followed by LF (loop step);
+// the tail after the last CRLF is emitted without a final CR (which, in text,
+// is the first half of a CRLF continued in the next chunk). On success the
+// whole chunk is reported as written (io.Writer contract).
+//gvc:func (*crlfToLFWriter).Write
+//gvc:  props C31
+//gvc:  theory int
+//gvc:  results cnt err
+//gvc:  modifies conv.w.#sink
+//gvc:  requires nn: conv.w != nil
+//gvc:  let w0 = conv.w.#wlen
+//gvc:  loop 1 invariant pos: 0 <= n && n <= len(data)
+//gvc:  loop 1 invariant boundary: n == 0 || (n >= 2 && data[n - 2] == '\r' && data[n - 1] == '\n')
+//gvc:  loop 1 invariant out: w0 <= conv.w.#wlen && conv.w.#wlen - w0 <= n
+//gvc:  loop 1 decreases len(data) - n
+//gvc:  loop 1 step consumed: conv.w.#wlen == head(conv.w.#wlen) + (n - head(n)) - 1
+//gvc:  loop 1 step run: forall(j, 0, n - head(n) - 2, conv.w.#wdata[head(conv.w.#wlen) + j] == data[head(n) + j])
+//gvc:  loop 1 step lf: conv.w.#wdata[conv.w.#wlen - 1] == '\n'
+//gvc:  loop 1 step crlf: n >= head(n) + 2 && data[n - 2] == '\r' && data[n - 1] == '\n'
+//gvc:  loop 1 step maximal: forall(j, head(n), n - 2, !(data[j] == '\r' && data[j + 1] == '\n'))
+//gvc:  loop 1 step kept: forall(j, 0, head(conv.w.#wlen), conv.w.#wdata[j] == head(conv.w.#wdata)[j])
+//gvc:  ensures count: err == nil ==> cnt == len(data)
+//gvc:  ensures range: 0 <= cnt && cnt <= len(data)
+//gvc:  ensures shrink: err == nil ==> conv.w.#wlen - w0 <= len(data)
+//gvc:  ensures tailpos: err == nil && len(data) > 0 ==> 0 <= n && n <= len(data) && (n == 0 || (n >= 2 && data[n - 2] == '\r' && data[n - 1] == '\n'))
+//gvc:  ensures tailfree: err == nil && len(data) > 0 ==> forall(j, n, len(data) - 1, !(data[j] == '\r' && data[j + 1] == '\n'))
+//gvc:  ensures tailcr: err == nil && len(data) > 0 && data[len(data) - 1] == '\r' ==> forall(k, 0, len(data) - 1 - n, conv.w.#wdata[conv.w.#wlen - (len(data) - 1 - n) + k] == data[n + k])
+//gvc:  ensures tailnocr: err == nil && len(data) > 0 && data[len(data) - 1] != '\r' ==> forall(k, 0, len(data) - n, conv.w.#wdata[conv.w.#wlen - (len(data) - n) + k] == data[n + k])
+//gvc:end
+
+// lfToCRLFWriter.Write: every iteration consumes a maximal LF-free run
+// followed by LF and emits the run followed by CRLF, unless the LF is already
+// preceded by CR (in this chunk, or as the last byte of the previous chunk),
+// in which case the bytes are copied unchanged. hadCR remembers whether the
+// chunk ended with CR.
+//gvc:func (*lfToCRLFWriter).Write
+//gvc:  props C31
+//gvc:  theory int
+//gvc:  results cnt err
+//gvc:  modifies conv.w.#sink, conv.hadCR
+//gvc:  requires nn: conv.w != nil
+//gvc:  let w0 = conv.w.#wlen
+//gvc:  let cr0 = conv.hadCR
+//gvc:  loop 1 invariant pos: 0 <= n && n <= len(data)
+//gvc:  loop 1 invariant boundary: n == 0 || data[n - 1] == '\n'
+//gvc:  loop 1 invariant out: w0 <= conv.w.#wlen && conv.w.#wlen - w0 <= 2 * n
+//gvc:  loop 1 invariant flag: conv.hadCR == cr0
+//gvc:  loop 1 decreases len(data) - n
+//gvc:  loop 1 step lf: n >= head(n) + 1 && data[n - 1] == '\n'
+//gvc:  loop 1 step maximal: forall(j, head(n), n - 1, data[j] != '\n')
+//gvc:  loop 1 step run: forall(j, 0, n - head(n) - 1, conv.w.#wdata[head(conv.w.#wlen) + j] == data[head(n) + j])
+//gvc:  loop 1 step consumed: conv.w.#wlen == head(conv.w.#wlen) + (n - head(n)) + ite((n - 1 > head(n) && data[n - 2] == '\r') || (n - 1 == 0 && cr0), 0, 1)
+//gvc:  loop 1 step ending: conv.w.#wdata[conv.w.#wlen - 1] == '\n' && (!(n == 1 && cr0) ==> conv.w.#wdata[conv.w.#wlen - 2] == '\r')
+//gvc:  loop 1 step kept: forall(j, 0, head(conv.w.#wlen), conv.w.#wdata[j] == head(conv.w.#wdata)[j])
+//gvc:  ensures count: err == nil ==> cnt == len(data)
+//gvc:  ensures range: 0 <= cnt && cnt <= len(data)
+//gvc:  ensures flag: err == nil && len(data) > 0 ==> conv.hadCR == (data[len(data) - 1] == '\r')
+//gvc:  ensures empty: len(data) == 0 ==> conv.hadCR == cr0 && conv.w.#wlen == w0
+//gvc:  ensures tailpos: err == nil && len(data) > 0 ==> 0 <= n && n <= len(data) && (n == 0 || data[n - 1] == '\n')
+//gvc:  ensures tailfree: err == nil && len(data) > 0 ==> forall(j, n, len(data), data[j] != '\n')
+//gvc:  ensures tail: err == nil && len(data) > 0 ==> forall(k, 0, len(data) - n, conv.w.#wdata[conv.w.#wlen - (len(data) - n) + k] == data[n + k])
+//gvc:end
